@@ -389,7 +389,11 @@ def clause_e(ctx: Context, idx) -> None:
             env[name] = C
         elif fb == ("_G", "block"):
             env[name] = G
-    ev = mo.WordEval(env)
+    once = {}
+    for n_ in ast.walk(f.node):
+        if isinstance(n_, ast.Assign) and len(n_.targets) == 1 and isinstance(n_.targets[0], ast.Name):
+            once.setdefault(n_.targets[0].id, []).append(n_.value)
+    ev = mo.WordEval(env, defs={k_: v_[0] for k_, v_ in once.items() if len(v_) == 1 and k_ not in env})
     G2, C2 = mo.oracle_second_moments(P, A, C, G)
     gv, cv = assigned_values(f, "_G"), assigned_values(f, "_C")
     if not gv or not cv:
